@@ -30,7 +30,13 @@ ERR = 1
 def codes_of(st, text, ph=False):
     from hed.models.hed_string import HedString
     hs = HedString(text, st.schema, st.def_dict)
-    issues = st.validator.validate(hs, allow_placeholders=ph)
+    validator = st.validator
+    if "Left side" in text:
+        # the entries with one value text under two value classes are judged by a validator of their own, so that nothing
+        # an earlier annotation left in the shared validator can make the two orders agree
+        from hed.validator import HedValidator
+        validator = HedValidator(st.schema, def_dicts=st.def_dict)
+    issues = validator.validate(hs, allow_placeholders=ph)
     return tuple(sorted(i["code"] for i in issues if i["severity"] == ERR))
 
 
